@@ -319,6 +319,10 @@ void spmv(
 {
     AMGCL_TIC("spmv");
     spmv_impl<Alpha, Matrix, Vector1, Beta, Vector2>::apply(alpha, A, x, beta, y);
+#ifdef AMGCL_VERIF
+    AMGCL_VERIF_OP("spmv", &A, verif::id(x), verif::id(y), 0,
+            math::is_zero(alpha), math::is_zero(beta), 0);
+#endif
     AMGCL_TOC("spmv");
 }
 
@@ -331,6 +335,9 @@ void residual(const Vector1 &rhs, const Matrix &A, const Vector2 &x, Vector3 &r)
 {
     AMGCL_TIC("residual");
     residual_impl<Matrix, Vector1, Vector2, Vector3>::apply(rhs, A, x, r);
+#ifdef AMGCL_VERIF
+    AMGCL_VERIF_OP("residual", verif::id(rhs), &A, verif::id(x), verif::id(r), 0, 0, 0);
+#endif
     AMGCL_TOC("residual");
 }
 
@@ -340,6 +347,9 @@ void clear(Vector &x)
 {
     AMGCL_TIC("clear");
     clear_impl<Vector>::apply(x);
+#ifdef AMGCL_VERIF
+    AMGCL_VERIF_OP("clear", verif::id(x), 0, 0, 0, 0, 0, 0);
+#endif
     AMGCL_TOC("clear");
 }
 
@@ -349,6 +359,9 @@ void copy(const Vector1 &x, Vector2 &y)
 {
     AMGCL_TIC("copy");
     copy_impl<Vector1, Vector2>::apply(x, y);
+#ifdef AMGCL_VERIF
+    AMGCL_VERIF_OP("copy", verif::id(x), verif::id(y), 0, 0, 0, 0, 0);
+#endif
     AMGCL_TOC("copy");
 }
 
@@ -365,6 +378,9 @@ inner_product(const Vector1 &x, const Vector2 &y)
 
     AMGCL_TIC("inner_product");
     result_type p = inner_product_impl<Vector1, Vector2>::get(x, y);
+#ifdef AMGCL_VERIF
+    AMGCL_VERIF_OP("inner_product", verif::id(x), verif::id(y), 0, 0, 0, 0, 0);
+#endif
     AMGCL_TOC("inner_product");
 
     return p;
@@ -378,6 +394,10 @@ template <class A, class Vector1, class B, class Vector2>
 void axpby(A a, Vector1 const &x, B b, Vector2 &y) {
     AMGCL_TIC("axpby");
     axpby_impl<A, Vector1, B, Vector2>::apply(a, x, b, y);
+#ifdef AMGCL_VERIF
+    AMGCL_VERIF_OP("axpby", verif::id(x), verif::id(y), 0, 0,
+            math::is_zero(a), math::is_zero(b), 0);
+#endif
     AMGCL_TOC("axpby");
 }
 
@@ -389,6 +409,10 @@ template <class A, class Vector1, class B, class Vector2, class C, class Vector3
 void axpbypcz(A a, Vector1 const &x, B b, Vector2 const &y, C c, Vector3 &z) {
     AMGCL_TIC("axpbypcz");
     axpbypcz_impl<A, Vector1, B, Vector2, C, Vector3>::apply(a, x, b, y, c, z);
+#ifdef AMGCL_VERIF
+    AMGCL_VERIF_OP("axpbypcz", verif::id(x), verif::id(y), verif::id(z), 0,
+            math::is_zero(a), math::is_zero(b), math::is_zero(c));
+#endif
     AMGCL_TOC("axpbypcz");
 }
 
@@ -401,6 +425,10 @@ void vmul(Alpha alpha, const Vector1 &x, const Vector2 &y, Beta beta, Vector3 &z
 {
     AMGCL_TIC("vmul");
     vmul_impl<Alpha, Vector1, Vector2, Beta, Vector3>::apply(alpha, x, y, beta, z);
+#ifdef AMGCL_VERIF
+    AMGCL_VERIF_OP("vmul", verif::id(x), verif::id(y), verif::id(z), 0,
+            math::is_zero(alpha), math::is_zero(beta), 0);
+#endif
     AMGCL_TOC("vmul");
 }
 
